@@ -80,6 +80,15 @@ def check(ctx):
                     elif ("Dist" in kinds or "DistB" in kinds) and set(kinds) <= {"Dist", "DistB", "K", "N"}:
                         n_abs_sites += 1
                         ctx.ob("R15.2", f"{short}|{shape}", True, site, f"decision taken on a wrapping difference: `{show(ea)} {op} {show(eb)}`")
+        # bitwise arithmetic on positions: only `pos & (N-1)` (== pos % N) is position arithmetic
+        for blk in sorted(body.reachable):
+            for i, st in enumerate(body.stmts(blk)):
+                if st[0] == "A" and st[2][0] == "Bin" and st[2][1] in ("BitOr", "BitAnd", "BitXor", "Shl", "Shr"):
+                    e = ("bin", st[2][1], dg.expr(st[2][2]), dg.expr(st[2][3]))
+                    if dm.kind(k, e) == "AbsBits":
+                        n_abs_sites += 1
+                        ctx.ob("R15.1", f"{short}|{st[2][1]}-on-position", False, body.loc(blk, i),
+                               f"`{show(e)[:120]}`: bitwise arithmetic on a free-running position; positions may only be reduced (`% N`, `/ N`, `& (N-1)`), rebuilt as `index + lap*N`, or moved by wrapping ±const")
         # a wrapping difference / sum must be taken at the counter's own width (u32): widening first changes the modulus
         seen_w = set()
         for blk in sorted(body.reachable):
